@@ -48,6 +48,35 @@ theorem entries_roundtrip_sparse (flags : Nat) (pairs : List (Nat × Nat)) (rest
   simp only [entryArray, ne_eq, hs, not_false_eq_true, if_true]
   exact sparse_roundtrip pairs rest h
 
+/-! ### the offset conversions, pinned to the source
+    `Gen.ArscConsts.sparseOffset / dense16Offset / dense16Skip / plainSkip / sparseEntryId / denseEntryId`
+    are the expressions gen/arscconsts.py translates from the entry loop of `ARSCParser.__init__`; the
+    model's array decoders are built from them.  A changed expression breaks these theorems. -/
+
+/-- FLAG_SPARSE: the 16-bit offset field counts 4-byte units and has **no** sentinel
+    (0xFFFF is the offset 0x3FFFC, not NO_ENTRY) -/
+theorem sparse_offset_spec (off : Nat) : sparseOffset off = off * 4 := rfl
+
+/-- FLAG_OFFSET16: 0xFFFF is NO_ENTRY (the slot is skipped), every other value counts 4-byte units -/
+theorem offset16_spec (o : Nat) :
+    dense16Offset o = (if o = 0xFFFF then 0xFFFF else o * 4) ∧
+    (dense16Skip (dense16Offset o) = true ↔ o = 0xFFFF) := by
+  refine ⟨rfl, ?_⟩
+  show decide ((if o = 65535 then 65535 else o * 4) = 65535) = true ↔ o = 65535
+  rw [decide_eq_true_iff]
+  by_cases h : o = 65535
+  · simp [h]
+  · rw [if_neg h]; omega
+
+/-- plain: the raw 32-bit offset, skipped exactly when it is NO_ENTRY (0xFFFFFFFF) -/
+theorem plain_skip_spec (off : Nat) : plainSkip off = true ↔ off = 0xFFFFFFFF := by
+  show decide (off = 4294967295) = true ↔ off = 4294967295
+  exact decide_eq_true_iff
+
+/-- the id given to slot `i` in both branches of the loop is the model's `entryResId` -/
+theorem entry_id_spec (cur i : Nat) : sparseEntryId cur i = entryResId cur i ∧ denseEntryId cur i = entryResId cur i :=
+  ⟨rfl, rfl⟩
+
 /-- simple entry: ResTable_entry + Res_value -/
 theorem entry_roundtrip_simple (flags key t d : Nat) (rest : List Nat)
     (hf : flags < 65536) (hc : flags &&& flagComplex = 0) (hk : flags &&& flagCompact = 0)
@@ -264,6 +293,8 @@ theorem table_packages_names (l : Layout) (t : Table) (hwf : wfTable l t = true)
 example : entryArray 0 3 (encPlain [some 0, none, some 16] ++ [9]) = some ([(0, 0), (16, 2)], [9]) := by decide
 example : entryArray 2 3 (encOffset16 [some 8, none, some 0]) = some ([(8, 0), (0, 2)], []) := by decide
 example : entryArray 1 2 (encSparse [(5, 16), (9, 0)]) = some ([(16, 5), (0, 9)], []) := by decide
+example : entryArray 1 1 (encSparse [(7, 0xFFFF * 4)]) = some ([(0x3FFFC, 7)], []) := by decide
+example : entryArray 2 2 (encOffset16 [some (0xFFFE * 4), none]) = some ([(0x3FFF8, 0)], []) := by decide
 example : decodeEntryL (encSimple 2 7 3 5) = some (⟨2, 7, .simple (3, 5)⟩, []) := by decide
 example : decodeEntryL (encComplex 1 7 0 [(257, (16, 1)), (0, (1, 300))])
     = some (⟨1, 7, .complex 0 [(257, (16, 1)), (0, (1, 300))]⟩, []) := by decide
